@@ -162,6 +162,7 @@ def shards(tier, seed):
         for i in range(16):
             items.append({"what": "program", "n": 700, "seed": seed * 1000 + 50 + i})
     items.append({"what": "long"})
+    items.append({"what": "partial"})
     for i in range(2 if tier == "quick" else 8):
         items.append({"what": "machine", "n": 60 if tier == "quick" else 800, "seed": seed * 1000 + 900 + i})
     return items
@@ -176,6 +177,8 @@ def run_shard(item, stats):
     if w == "history":
         core.hyp_search(cachehist.history_case(accepted_only=True, max_ops=item["ops"]).map(lambda c: dict(c, kind="history")),
                         check, stats, item["n"], item["seed"], km)
+    elif w == "partial":
+        core.run_cases((dict(c, kind="history") for c in cachehist.partial_fill_cases()), check, stats, km)
     elif w == "long":
         core.run_cases(long_cases(), check, stats, km)
     elif w == "tiny":
